@@ -38,7 +38,8 @@ Clause(name, ww, e) ==
             /\ \A n \in Faces(ww) \ DegenerateCells(ww) : e.obs.ok.mask[n + 1] = MaskAt(ww, n)
             /\ \A n \in Faces(ww) : e.obs.ok.mask[n + 1] = (e.obs.ok.polys[n + 1] # <<>>)
     [] name = "InvalidWarned" ->
-         (Is(e, "Polygons") /\ Clean(ww)) => (e.obs.ok.warned = (InvalidCells(ww) # {}))
+         \* (the polygons are computed once per convention object: a repeated question is answered from the cache, silently)
+         (Is(e, "Polygons") /\ Clean(ww) /\ "again" \notin DOMAIN e) => (e.obs.ok.warned = (InvalidCells(ww) # {}))
     [] name = "MissingCoordinatesNoPolygon" ->
          (Is(e, "Polygons") /\ ww.conv \in {"cf2d", "shoc_simple"} /\ Len(e.obs.ok.polys) = FaceCount(ww)) =>
             \A n \in Faces(ww) :
